@@ -47,7 +47,7 @@ func (e specErr) Error() string { return "specification error: " + e.msg }
 func sfail(f string, a ...interface{}) { panic(specErr{fmt.Sprintf(f, a...)}) }
 
 func (ex *Exec) envFor(fr *Frame, st *State) *SpecEnv {
-	env := &SpecEnv{ex: ex, fr: fr, st: st, old: fr.entry, vars: map[string]Value{}, pkg: fr.fn.Pkg.Pkg}
+	env := &SpecEnv{ex: ex, fr: fr, st: st, old: fr.entry, vars: map[string]Value{}, pkg: fnPkg(fr.fn)}
 	for k, v := range fr.params {
 		env.vars[k] = v
 	}
@@ -212,7 +212,7 @@ func (env *SpecEnv) eval(e Expr, hint types.Type) Value {
 				return env.intLit(new(big.Int).Neg(lit.Val), hint)
 			}
 			t := env.evalTerm(x.X, hint)
-			if ex.vc.mode == ModeBV {
+			if tc.isBV(t.T) {
 				return Term{S: sx("bvneg", t.S), T: t.T}
 			}
 			return Term{S: sx("-", t.S), T: t.T}
@@ -252,6 +252,7 @@ func (env *SpecEnv) eval(e Expr, hint types.Type) Value {
 		}
 		if isStringType(base.T) {
 			i := env.evalTerm(x.I, types.Typ[types.Int])
+			ex.strAxioms()
 			return Term{S: sx("g_strat", base.S, ex.toIdx(i)), T: types.Typ[types.Uint8]}
 		}
 		sfail("cannot index %s", base.T)
@@ -595,7 +596,7 @@ func (env *SpecEnv) binary(x EBin, hint types.Type) Value {
 				return Term{S: sNot(sx("g_strlt", a.S, b.S)), T: boolT}
 			}
 		}
-		if ex.vc.mode == ModeBV {
+		if env.tc().isBV(a.T) {
 			m := map[string][2]string{"<": {"bvslt", "bvult"}, "<=": {"bvsle", "bvule"}, ">": {"bvsgt", "bvugt"}, ">=": {"bvsge", "bvuge"}}
 			o := m[x.Op][1]
 			if isSigned(a.T) {
@@ -612,7 +613,7 @@ func (env *SpecEnv) binary(x EBin, hint types.Type) Value {
 			ex.strAxioms()
 			return Term{S: sx("g_concat", a.S, b.S), T: a.T}
 		}
-		if ex.vc.mode == ModeBV {
+		if env.tc().isBV(a.T) {
 			m := map[string]string{"+": "bvadd", "-": "bvsub", "*": "bvmul", "/": "bvsdiv", "%": "bvsrem"}
 			o := m[x.Op]
 			if !isSigned(a.T) {
@@ -622,6 +623,9 @@ func (env *SpecEnv) binary(x EBin, hint types.Type) Value {
 					o = "bvurem"
 				}
 			}
+			if x.Op == "*" || x.Op == "/" || x.Op == "%" {
+				return Term{S: ex.nonlinear(o, a.S, b.S, widthOf(a.T)), T: a.T}
+			}
 			return Term{S: sx(o, a.S, b.S), T: a.T}
 		}
 		m := map[string]string{"+": "+", "-": "-", "*": "*", "/": "g_tdiv", "%": "g_trem"}
@@ -630,7 +634,7 @@ func (env *SpecEnv) binary(x EBin, hint types.Type) Value {
 		if st, ok := a.T.(*SetType); ok {
 			return env.setOp(x.Op, a, b, st)
 		}
-		if ex.vc.mode == ModeBV {
+		if env.tc().isBV(a.T) {
 			m := map[string]string{"&": "bvand", "|": "bvor", "^": "bvxor", "<<": "bvshl", ">>": "bvashr"}
 			o := m[x.Op]
 			if x.Op == ">>" && !isSigned(a.T) {
